@@ -3,6 +3,9 @@ package sim
 import (
 	"fmt"
 	"io"
+
+	"github.com/bluenviron/gohlslib/v2/pkg/codecs"
+	"github.com/bluenviron/mediacommon/v2/pkg/codecs/mpeg4audio"
 	"net/http"
 	"net/url"
 	"os"
@@ -223,6 +226,12 @@ func genMuxCfg(r *Run, g *muxGen) *muxCfg {
 			rate := aacRates[T.Intn(len(aacRates))]
 			ts = &trackSpec{kind: "aac", clock: rate, aacRate: rate}
 			ts.t = newAACTrack(rate, Pick(T, 1, 2))
+			if c.vname != "mpegts" && rate <= 24000 && T.Chance(1, 4) {
+				// HE-AAC with explicit SBR signalling: the access units still span 1024 samples at the core rate
+				cc := ts.t.Codec.(*codecs.MPEG4Audio)
+				cc.Config.ExtensionType = mpeg4audio.ObjectTypeSBR
+				cc.Config.ExtensionSampleRate = 2 * rate
+			}
 		} else {
 			ts = &trackSpec{kind: "opus", clock: 48000}
 			ts.t = newOpusTrack(Pick(T, 1, 2))
@@ -232,7 +241,7 @@ func genMuxCfg(r *Run, g *muxGen) *muxCfg {
 			ts.t.Name = ts.name
 		}
 		if T.Chance(1, 2) {
-			ts.lang = Pick(T, "en", "de", "it", "fr")
+			ts.lang = Pick(T, "en", "de", "it", "fr", "en-US", "pt-BR", "zh-Hant")
 			ts.t.Language = ts.lang
 		}
 		if !anyDefault && c.vname != "mpegts" && T.Chance(1, 4) {
@@ -545,6 +554,9 @@ func genVideoCalls(T *Tape, g *muxGen, c *muxCfg, ts *trackSpec, _ []*writeCall,
 			d = base + int64(T.Range(-int(base/3), int(base/3)))
 		default:
 			d = int64(T.Range(0, 20000))
+			if g.allowZeroDur && T.Chance(1, 12) {
+				d = 0 // two consecutive units with the same DTS (non-decreasing, not strictly increasing)
+			}
 			if !g.allowZeroDur && d == 0 {
 				d = 1
 			}
